@@ -21,7 +21,8 @@ From Coq Require Import List NArith ZArith Lia.
 From PQ Require Import Base.Bytes Base.Varint Base.BitPack.
 From PQ Require Import Enc.DeltaBP Enc.DeltaBPProofs Enc.Rle Enc.RleProofs.
 From PQ Require Import Enc.Plain Enc.PlainProofs Enc.ByteArrayDelta Enc.ByteArrayDeltaProofs.
-From PQ Require Import Enc.GoDecBase Enc.GoDecRle Enc.GoDecRleProofs Enc.GoDecDelta Enc.GoDecDeltaProofs.
+From PQ Require Import Enc.GoDecBase Enc.GoDecRle Enc.GoDecRleProofs Enc.GoDecBitsProofs.
+From PQ Require Import Enc.GoDecDelta Enc.GoDecDeltaProofs.
 Import ListNotations.
 Open Scope N_scope.
 
@@ -204,9 +205,7 @@ Theorem C04_go_decoder_rle_dictionary_indexes : forall src,
 Proof. exact go_dict_roundtrip. Qed.
 
 (** booleans (decodeBits, with its bit position across runs): the packed
-    bytes come back; their bits are what the specification decoder returns.
-    Conforming streams whose run-length runs are not multiples of 8 (which
-    Go's encoder does not write) are covered by execution only. *)
+    bytes come back; their bits are what the specification decoder returns *)
 Theorem C04_go_decoder_rle_boolean : forall src,
   wf_bytes src -> N.of_nat (length src) < 2 ^ 26 ->
   go_decode_boolean (enc_boolean src) = GOk src.
@@ -217,6 +216,23 @@ Theorem C04_go_decoder_rle_boolean_agrees_spec : forall src n,
   exists packed, go_decode_boolean (enc_boolean src) = GOk packed /\
                  dec_boolean_n n (enc_boolean src) = Some (firstn n (bits_of packed)).
 Proof. exact go_boolean_agrees_spec. Qed.
+
+(** ... and every conforming RLE boolean page -- any partition of the values
+    into non-empty run-length runs of ANY length (not only the multiples of 8
+    that Go writes) and bit-packed runs -- is decoded by Go to packed bytes
+    whose first bits are the values, which is also what the specification
+    decoder returns (the property the code before 75827ad violated:
+    [C04_pinned_rle_boolean_unaligned_refuted]) *)
+Theorem C04_go_decoder_rle_boolean_any_runs : forall rs,
+  Forall (wf_run 1) rs -> Forall go_run_ok rs -> Forall run_bit rs ->
+  rs <> [] -> N.of_nat (length (serialize 1 rs)) < 2 ^ 32 ->
+  let vals := concat (map expand rs) in
+  let page := to_le 4 (N.of_nat (length (serialize 1 rs))) ++ serialize 1 rs in
+  exists packed,
+    go_decode_boolean page = GOk packed /\
+    firstn (length vals) (bits_of packed) = vals /\
+    dec_boolean_n (length vals) page = Some vals.
+Proof. exact go_boolean_any_runs. Qed.
 
 (** DELTA_BINARY_PACKED: on EVERY well-formed byte string accepted by [dec64]
     (the specification decoder with varints of at most 10 bytes / 64 bits)
@@ -276,6 +292,7 @@ Print Assumptions C04_go_decoder_rle_int32.
 Print Assumptions C04_go_decoder_rle_dictionary_indexes.
 Print Assumptions C04_go_decoder_rle_boolean.
 Print Assumptions C04_go_decoder_rle_boolean_agrees_spec.
+Print Assumptions C04_go_decoder_rle_boolean_any_runs.
 Print Assumptions C04_go_decoder_delta_accepts_spec_partial.
 Print Assumptions C04_go_decoder_delta_accepts_spec_full_refuted.
 Print Assumptions C04_go_decoder_delta_int32.
@@ -300,6 +317,15 @@ Example C04_ex_go_rle_runs_hyp :
   /\ Forall go_run_ok [RunRLE 3 5; RunBP [[0; 1; 2; 3; 4; 5; 6; 7]]; RunRLE 13 7].
 Proof.
   split; repeat constructor; vm_compute; try reflexivity; try discriminate.
+Qed.
+
+(** booleans: 10 x true as one run-length run, a bit-packed group, 3 x false *)
+Example C04_ex_go_boolean_runs_hyp :
+  Forall (wf_run 1) [RunRLE 10 1; RunBP [[0; 1; 1; 0; 0; 0; 0; 1]]; RunRLE 3 0]
+  /\ Forall go_run_ok [RunRLE 10 1; RunBP [[0; 1; 1; 0; 0; 0; 0; 1]]; RunRLE 3 0]
+  /\ Forall run_bit [RunRLE 10 1; RunBP [[0; 1; 1; 0; 0; 0; 0; 1]]; RunRLE 3 0].
+Proof.
+  repeat split; repeat constructor; vm_compute; try reflexivity; try discriminate.
 Qed.
 
 (** DELTA_BINARY_PACKED with block size 256, 2 mini-blocks of 128 values, a
